@@ -19,6 +19,7 @@ const (
 	clUnknownID = "no data or error for an id that was never started"
 	clPanic     = "malformed input never crashes (no panic)"
 	clWedge     = "never wedges: the handler returns once the connection is gone"
+	clReuse     = "a duplicate-id close (4409) is sent only for an id that is still active"
 )
 
 type finding struct {
@@ -102,7 +103,6 @@ func accept(p proto, log []ev, panicMsg string) *verdict {
 	missedReported := false
 	dupMsg := map[string]int{} // legacy: index of the client message that re-used a live id
 	malformedMsg := -2         // legacy: index of the last malformed client message
-	reuseAfterError := -2      // index of a subscribe that re-uses the id of a subscription terminated with error
 	add := func(i int, clause, site, class, key, detail string) {
 		v.Findings = append(v.Findings, finding{Clause: clause, Site: site, Class: class, Detail: detail, Key: clause + "|" + key, At: i})
 	}
@@ -126,6 +126,28 @@ func accept(p proto, log []ev, panicMsg string) *verdict {
 			mustClose, mustCloseWhy, mustCloseMsg, missedReported = code, why, msg, false
 		}
 	}
+	// a subscribe/start that re-uses an id AFTER the server's own terminal message for it is a
+	// new operation: it must start (x:execute) and must not be refused as a duplicate
+	var reuse *struct {
+		id, class string
+		msg       int
+		prev      *opInfo
+	}
+	checkReuse := func(i int) {
+		if reuse == nil {
+			return
+		}
+		r := reuse
+		reuse = nil
+		if phase == phClosed {
+			return
+		}
+		// the new operation never existed for the server: whatever it answered was not the
+		// terminal message of a started operation; the id keeps the state it had before
+		ops[r.id] = r.prev
+		add(i, clReuse, "subscribe re-using a terminated id is refused", r.class, "reuse|"+r.class,
+			fmt.Sprintf("the server had sent its terminal message for id %q (%s); the client re-used the id, which is a new operation, but no execution was started for it (answered as a duplicate / ignored)", r.id, r.class))
+	}
 	for i, e := range log {
 		if e.Post {
 			// nothing reaches the wire after the close: counted, not judged (A.1)
@@ -135,6 +157,7 @@ func accept(p proto, log []ev, panicMsg string) *verdict {
 		switch e.K {
 		case "c":
 			checkPendingClose(i)
+			checkReuse(i)
 			switch e.Type {
 			case kInit:
 				if p == protoTransport {
@@ -181,8 +204,16 @@ func accept(p proto, log []ev, panicMsg string) *verdict {
 					v.nj("subscribe_while_client_done")
 					ops[e.ID] = &opInfo{st: opActive, sub: strings.Contains(e.Raw, "subscription {")}
 				default:
-					if o != nil && o.st == opTerminated && o.termBy == "error" && o.sub {
-						reuseAfterError = e.Msg
+					if o != nil && o.st == opTerminated && !abandoned && mustClose == 0 {
+						kind := "query/mutation"
+						if o.sub {
+							kind = "subscription"
+						}
+						reuse = &struct {
+							id, class string
+							msg       int
+							prev      *opInfo
+						}{e.ID, kind + " terminated by " + o.termBy, e.Msg, o}
 					}
 					ops[e.ID] = &opInfo{st: opActive, sub: strings.Contains(e.Raw, "subscription {")}
 					v.feat("op_started")
@@ -218,12 +249,17 @@ func accept(p proto, log []ev, panicMsg string) *verdict {
 				}
 			} else {
 				checkPendingClose(i)
+				checkReuse(i)
 			}
 		case "xget", "xexec":
 			what := "executor requested"
 			if e.K == "xexec" {
 				what = "execution started"
 				v.feat("execution_started")
+				if reuse != nil && reuse.id == e.ID && reuse.msg == e.Msg {
+					reuse = nil // the re-used id was started as a new operation
+					v.feat("terminated_id_reused_and_started")
+				}
 			}
 			if phase == phClosed {
 				// the handler already closed the transport (e.g. it returned while the
@@ -317,6 +353,17 @@ func accept(p proto, log []ev, panicMsg string) *verdict {
 				code = 0
 			}
 			v.feat(fmt.Sprintf("close(%d)", code))
+			refusedReuse := false
+			if reuse != nil && reuse.msg == e.Msg {
+				if code == 4409 {
+					refusedReuse = true
+					add(i, clReuse, "subscribe re-using a terminated id is refused", reuse.class, "reuse|"+reuse.class,
+						fmt.Sprintf("the server had sent its terminal message for id %q (%s); the client re-used the id, which is a new operation, and the server closed with 4409 (subscriber already exists)", reuse.id, reuse.class))
+				} else {
+					v.nj("reuse_of_terminated_id_cut_short_by_another_close")
+				}
+				reuse = nil
+			}
 			if mustClose != 0 && code != mustClose && !missedReported {
 				add(i, clClose, fmt.Sprintf("close(%d) expected after %s", mustClose, mustCloseWhy), fmt.Sprintf("closed with %d", code), mustCloseWhy,
 					fmt.Sprintf("%s requires close code %d, the server closed with %d", mustCloseWhy, mustClose, code))
@@ -324,12 +371,7 @@ func accept(p proto, log []ev, panicMsg string) *verdict {
 			if mustClose == 0 {
 				if abandoned {
 					v.feat(fmt.Sprintf("close_after_read_error_timeout(%d)", code))
-				} else if code == 4409 && reuseAfterError == e.Msg {
-					// A.1: a close nobody prescribed is accepted. This one is the other face of
-					// the next-after-error finding: the subscription the server terminated with
-					// `error` is still registered, so re-using its id is treated as a duplicate
-					v.nj("close_4409_on_reuse_of_subscription_id_terminated_with_error")
-				} else {
+				} else if !refusedReuse {
 					v.feat(fmt.Sprintf("close_without_obligation(%d)", code))
 				}
 			}
@@ -337,6 +379,7 @@ func accept(p proto, log []ev, panicMsg string) *verdict {
 			phase = phClosed
 		case "end":
 			checkPendingClose(i)
+			checkReuse(i)
 			if phase != phClosed {
 				ids := make([]string, 0, len(ops))
 				for id := range ops {
